@@ -278,10 +278,20 @@ Terminates == ~diverged
 NoError == err = ""
 
 (* C06 (design level): the decomposition does not depend on where the search starts *)
-CursorFree == \A a \in Times : \A b \in Times : a < b =>
+CursorFree == \A a \in Times : \A b \in Times : Round(a) < Round(b) =>
    LET r1 == Loc(tree, last, a, b)
        r2 == Loc(tree, Root, a, b)
    IN (r1.bad = "" /\ ~r1.oob) => (r1.tr = r2.tr /\ r1.out = r2.out)
+
+
+(* C06, dyadic mode: the decomposition of a query -- the PATHS of the pieces, hence their seeds --   *)
+(* is the one a fresh object would produce: it does not depend on the history.                      *)
+Canonical == Halfway => \A a \in Times : \A b \in Times : Round(a) < Round(b) =>
+   LET r1 == Loc(tree, last, a, b)
+       r0 == Loc(Tree0, Root, a, b)
+   IN (r1.bad = "" /\ ~r1.oob /\ r0.bad = "" /\ ~r0.oob) =>
+        /\ r1.out = r0.out
+        /\ \A i \in 1..Len(r1.out) : r1.tr[r1.out[i]].s = r0.tr[r0.out[i]].s /\ r1.tr[r1.out[i]].e = r0.tr[r0.out[i]].e
 
 (* dyadic mode: every internal node is split at the rounded midpoint of its span *)
 Dyadic == Halfway => \A p \in Paths : IsInternal(p) =>
